@@ -92,7 +92,7 @@ def bindings(tagmap, reassign, x):
     return seq
 
 
-def run_probe(ns, sel, x, observer=False):
+def run_probe(ns, sel, x, observer=False, outer=None):
     """Returns ('ok', [(name, value)...], instrumented names seen by the observer) or ('refused', exc type)."""
     from ptera import probing, BaseOverlay, Immediate
     from ptera.selector import SelectorError, select
@@ -106,11 +106,18 @@ def run_probe(ns, sel, x, observer=False):
             for n, v in zip(cap.names, cap.values):
                 got.append((n, v))
 
+    po = None
+    if outer:
+        # another probe that instruments more bindings than the tag selects
+        po = probing(outer, env={"f": f, **ns}, raw=True)
+        po.__enter__()
     try:
         p = probing(sel, env={"f": f, **ns}, raw=True)
         p.subscribe(on)
         p.__enter__()
     except SelectorError:
+        if po:
+            po.__exit__(None, None, None)
         world.reset_context()
         return ("refused", "SelectorError"), None
     except BaseException as e:
@@ -125,6 +132,8 @@ def run_probe(ns, sel, x, observer=False):
             f(x)
     finally:
         p.__exit__(None, None, None)
+        if po:
+            po.__exit__(None, None, None)
     return ("ok", got), (seen if observer else None)
 
 
@@ -167,6 +176,14 @@ def check_program(prog, tier, part):
                 report("wrong-tag-capture", sel, f"expected exactly {exp!r} (bindings annotated with @{T}), delivered {res[1]!r}")
             else:
                 part["nontrivial"] += 1
+            # the same tag probe while everything is instrumented by an unrestricted generic probe
+            case(sel + " inside f > $y")
+            res2, _ = run_probe(ns, sel, x, outer="f > $y")
+            if res2[0] == "ok" and res2[1] != exp:
+                report("wrong-tag-capture-when-fully-instrumented", sel,
+                       f"inside probing('f > $y'): expected exactly {exp!r}, delivered {res2[1]!r}")
+            elif res2[0] != "ok":
+                report("refused-tagged", sel + " inside f > $y", str(res2[1]))
             if seen is not None:
                 inst = sorted({n for n in seen if n in names})
                 want = sorted({n for n, v, tags in seq if T in tags})
